@@ -953,6 +953,12 @@ let run_ui (wd : uworld) preload width height root feeds keys ~frames ~hooks =
     | 256 :: r -> gated := true; out := !out @ snap !st []; go r
     | 257 :: r -> gated := false; st := settle_all !st; out := !out @ snap !st []; go r
     | 259 :: r -> hook_failing := true; out := !out @ snap !st []; go r
+    | 260 :: k :: r ->
+      (* observed right after the key (the hook task, if any, still pending) and again when settled *)
+      st := upd !st k;
+      out := !out @ snap !st [];
+      st := (if !gated then settle_g !st else settle_all !st);
+      out := !out @ snap !st []; go r
     | 258 :: w :: h :: r ->
       st := resize !st (z_of_int w) (z_of_int h);
       st := (if !gated then settle_g !st else settle_all !st); out := !out @ snap !st []; go r
